@@ -476,7 +476,7 @@ def run_prog_check(pid, tier, rep, deadline_s):
     rep.assumptions = ['black-box: compiled without the verification guard and without access to private members']
 
 # ----------------------------------------------------------------------------- C07: compile-time program enumerator (E-CT)
-C07_RULE = 'For each literal-typed grammar every input up to the bound over the grammar\'s terminals, a foreign byte and whitespace becomes one line `constexpr auto r_i = p.parse(cstring_buffer("..."))` of a generated translation unit. Phase 1: g++ and clang++ check the unit with -fsyntax-only and unlimited diagnostics; every diagnostic is mapped back to its case by line number, so "is this parse a constant expression on this compiler" is decided per case. Phase 2: the unit is compiled to a program (cases that are not constant expressions fall back to run time only) which parses every input at run time through cstring_buffer, string_buffer and string_view_buffer, with a constexpr-constructed and a run-time-constructed parser, and compares all six results with each other and with the constant-evaluated value.'
+C07_RULE = 'For each literal-typed grammar every input up to the bound over the grammar\'s terminals, a foreign byte and whitespace becomes one line `constexpr auto r_i = ce_parse("...")` (= p.parse(cstring_buffer("...")), or the (options, buffer, stream) overload for the variants with skip_whitespace(false) / skip_newline(false), or context_parse for the grammar with >>= functors, or a custom-lexer parser) of a generated translation unit. Phase 1: g++ and clang++ check the unit with -fsyntax-only and unlimited diagnostics; every diagnostic is mapped back to its case by line number, so "is this parse a constant expression on this compiler" is decided per case. Phase 2: the unit is compiled to a program (cases that are not constant expressions fall back to run time only) which parses every input at run time through cstring_buffer, string_buffer and string_view_buffer, with a constexpr-constructed and a run-time-constructed parser, and compares all six results with each other and with the constant-evaluated value.'
 
 def c07_one(gname, n, comp, work):
     src = os.path.join(work, '%s_%s.cpp' % (gname, comp.replace('+', 'p'))); mp = src + '.map.json'
@@ -519,7 +519,7 @@ def c07_one(gname, n, comp, work):
 
 def run_c07(pid, tier, rep, deadline_s):
     q = tier == 'quick'
-    plan = [('stars', 4 if q else 7), ('expr', 3 if q else 5), ('recovery', 4 if q else 6), ('numbers', 3 if q else 6), ('nul', 4 if q else 7), ('stars-long', 0), ('recovery-long', 0), ('expr-long', 0)]
+    plan = [('stars', 4 if q else 7), ('expr', 3 if q else 5), ('recovery', 4 if q else 6), ('numbers', 3 if q else 6), ('nul', 4 if q else 7), ('stars-nows', 4 if q else 6), ('recovery-nonl', 4 if q else 5), ('ctx', 4 if q else 6), ('custom', 4 if q else 6), ('stars-long', 0), ('recovery-long', 0), ('expr-long', 0)]
     work = os.path.join(BUILD, 'run-C07-%s%s' % (tier, ('-%d' % os.getpid()) if _SCRATCH else '')); shutil.rmtree(work, ignore_errors=True); os.makedirs(work)
     jobs = [(g, n, c) for (g, n) in plan for c in ('g++', 'clang++')]
     from concurrent.futures import ThreadPoolExecutor
